@@ -129,6 +129,9 @@ func (m *model) setTimesFlags(f uint64) uint32 {
 // step applies one letter and returns (kind, value).
 func (m *model) step(l *letter) (byte, uint32) {
 	a := l.Args
+	if l.Setup != nil {
+		copy(m.buf(pSubList, uint64(len(l.Setup))), l.Setup)
+	}
 	ret := func(e uint32) (byte, uint32) { return kindRet, e }
 	switch l.Fn {
 	case "args_get", "environ_get":
